@@ -17,7 +17,10 @@ M3  exact mode         real NeuralUCB / NeuralTS with a linear actor (LinFeat, w
 from __future__ import annotations
 
 import random
+import json
 from concurrent.futures import ProcessPoolExecutor
+
+from ..core import Vacuous
 
 EXACT_CFG = """SPECIFICATION TSpec
 CONSTANTS
@@ -107,6 +110,8 @@ def gen_script(rng, actor, length, max_dec, arms):
 
 
 def sig(kind):
+    """bandit:<strict|relative>:<algo>:<op>[:<mutation kind>]:<failed clause(s)>[:<exception type>]:<lam=1|lam!=1>
+    (actor kind and exact/inexact mode are in the description, not in the signature)."""
     def f(t, v):
         ev = v.event if isinstance(v.event, dict) else {}
         cfg = t["cfg"]
@@ -115,13 +120,14 @@ def sig(kind):
         exc = ""
         if ev.get("exc"):
             exc = ":" + str(ev["exc"]).split(":")[0]
-        return f"bandit:{kind}-{cfg['mode']}:{cfg['algo']}:{cfg['actor']}:{op}:{cl}{exc}:lam={cfg['lam'][0]}/{cfg['lam'][1]}"
+        lam = "lam=1" if float(cfg["lamb"]) == 1.0 else "lam!=1"
+        return f"bandit:{cfg['mode']}:{cfg['algo']}:{op}:{cl}{exc}:{lam}"
     return f
 
 
 def what(t, v):
     cfg = t["cfg"]
-    return (f"{cfg['algo']} (actor {cfg['actor']}, lamb={cfg['lamb']}, gamma={cfg['gamma']}, mode {cfg['mode']}, spec lambda {cfg['lam'][0]}/{cfg['lam'][1]}): "
+    return (f"[{cfg.get('kind', '')} mode] {cfg['algo']} (actor {cfg['actor']}, lamb={cfg['lamb']}, gamma={cfg['gamma']}, mode {cfg['mode']}, spec lambda {cfg['lam'][0]}/{cfg['lam'][1]}): "
             f"trace rejected at event {v.step}: {v.clauses or v.invariant}; script={cfg['ops'][:700]}; event={str(v.event)[:900]}")
 
 
@@ -131,21 +137,13 @@ def run(ctx):
     quick = ctx.quick
     rng = random.Random(ctx.seed)
 
-    # ---- M1
-    r = ctx.mc("Bandit_MC", "Bandit_MCq.cfg" if quick else "Bandit_MC.cfg", coverage=False, timeout=3000)
-    if r.ok and r.distinct < 10000:
-        from ..core import Vacuous
-        raise Vacuous(f"kernel model explored only {r.distinct} states")
-    ctx.mc("Bandit_MC", "Bandit_MCp.cfg",
-           must_cover=["CreateAny|Create", "DecideAny|Decide", "LearnAny|Learn", "MutateAny|Mutate", "CloneAny|Clone", "SaveAny|Save", "LoadNewAny|LoadNew", "LoadIntoAny|LoadInto"])
-
     # ---- scripts
     jobs = []
     for algo in ("NeuralUCB", "NeuralTS"):
         for actor in ("lin", "linb", "mlp", "default"):
             for lamb in LAMS:
                 jobs.append((algo, actor, lamb, 1.0, SYS, ctx.seed + len(jobs), 3))
-    n_exact, n_float = (72, 36) if quick else (600, 240)
+    n_exact, n_float = (60, 30) if quick else (600, 240)
     for j in range(n_exact):
         algo = ("NeuralUCB", "NeuralTS")[j % 2]
         actor = ("lin", "linb", "lin")[j % 3]
@@ -158,7 +156,16 @@ def run(ctx):
         ops = gen_script(rng, actor, rng.randint(8, 22), 14, 3)
         jobs.append((algo, actor, LAMS[(j // 4) % 3], rng.choice([0.5, 1.0, 2.0]), ops, ctx.seed + 5000 + j, 3))
     with ProcessPoolExecutor(max_workers=12) as ex:
-        results = list(ex.map(bandit.run_job, jobs, chunksize=1))
+        futs = [ex.submit(bandit.run_job, j) for j in jobs]          # real executions run while TLC model-checks
+
+        # ---- M1
+        r = ctx.mc("Bandit_MC", "Bandit_MCq.cfg" if quick else "Bandit_MC.cfg", coverage=False, timeout=3000)
+        if r.ok and r.distinct < 10000:
+            raise Vacuous(f"kernel model explored only {r.distinct} states")
+        ctx.mc("Bandit_MC", "Bandit_MCpq.cfg" if quick else "Bandit_MCp.cfg",
+               must_cover=["CreateAny|Create", "DecideAny|Decide", "LearnAny|Learn", "MutateAny|Mutate", "CloneAny|Clone", "SaveAny|Save",
+                           "LoadNewAny|LoadNew", "LoadIntoAny|LoadInto"])
+        results = [f.result() for f in futs]
 
     exact, flt = [], []
     protocol, resized, decisions, events = {}, 0, 0, 0
@@ -173,7 +180,6 @@ def run(ctx):
                 protocol.setdefault(k, {}).setdefault(w, 0)
                 protocol[k][w] += n
     if resized == 0 or decisions == 0:
-        from ..core import Vacuous
         raise Vacuous("no script changed the size of an output layer / took a decision")
     ctx.extra["observed_protocol"] = protocol
     ctx.extra["output_layer_resizes"] = resized
@@ -200,3 +206,31 @@ def run(ctx):
                "re-initialise it; learn steps and saves must leave it unchanged")
     return "model_checking", ("case = (algorithm, actor kind, lambda, gamma, operation script with context seeds and masks, number of arms); "
                               "distinct = distinct tuples; all are non-trivial (every script creates an agent and ends with a decision on every live agent)"), False
+
+
+def replay(path):
+    """./check C19 --replay PATH: re-execute the recorded script on real agents and validate it again through TLC."""
+    from .. import trace as trace_mod
+    from ..drive import bandit
+
+    rp = json.loads(open(path).read())
+    r = rp["replay"]
+    print(f"replaying {rp['signature']}")
+    if r.get("kind") != "rejected-trace":
+        print(str(r.get("text", ""))[:6000])
+        return 1
+    cfg = r["trace"]["cfg"]
+    ops = [tuple(o) for o in json.loads(cfg["ops"])]
+    res = bandit.run_job((cfg["algo"], cfg["actor"], cfg["lamb"], cfg["gamma"], ops, cfg["seed"], cfg.get("arms", 3)))
+    t = next((x for x in res["traces"] if x["cfg"]["mode"] == cfg["mode"]), res["traces"][0])
+    print(f"{cfg['algo']} actor={cfg['actor']} lamb={cfg['lamb']} gamma={cfg['gamma']} mode={t['cfg']['mode']} spec lambda={t['cfg']['lam']}")
+    for i, e in enumerate(t["ev"], start=1):
+        extra = {k: e[k] for k in ("kind", "feats", "arm", "mask") if k in e and e["op"] in ("decide", "mutate")}
+        print(f"-- event {i}: {e['op']} a={e['a']} c={e['c']} f={e['f']} {extra} exc={e['exc']!r}")
+        for s, p in enumerate(e["post"], start=1):
+            if not p.get("nil"):
+                print(f"     slot {s}: " + ", ".join(f"{k}={p[k]}" for k in ("layer", "dim", "S", "hist", "res", "resid", "isinit", "eqsrc") if k in p))
+    exact = res["kind"] == "exact"
+    v = trace_mod.validate("Bandit_Trace" if exact else "Banditx_Trace", EXACT_CFG if exact else FLOAT_CFG, [t])[0]
+    print("TLC verdict on the re-execution:", "ACCEPTED" if v.accepted else f"REJECTED at event {v.step}: {v.clauses or v.invariant}")
+    return 0 if v.accepted else 1
